@@ -862,6 +862,12 @@ def depends_on(c, chk):
     chk.rule('R1.9', 'value tokens are converted exactly or refused (the rules of C04)')
     from . import c12
     chk.rule('R1.10', 'under the ignore-unknown flag the language has no undeclared names: such items are skipped, silently, whatever their shape (the rules of C12)')
+    # R1.13: what a text means does not depend on where an earlier text left the scanner
+    from . import c08 as _c08x
+    chk.rule('R1.13', 'every scan begins in the initial start condition (rule R8.1 of C08): a text is not read as the continuation of an earlier text\'s comment or string')
+    sub8 = report.SubCheck(chk, 'R1.13', 'C08', only=('R8.1',))
+    _c08x.run(c, sub8)
+    sub8.done('scanner start state')
     # R1.12: "unmentioned options keep their declared defaults": the defaults a context works with are those of the declaration
     from . import c16
     chk.rule('R1.12', 'the private copy of the schema carries every declared default and annotation over (NULL only where the declaration has NULL; rule R16.1 of C16)')
